@@ -17,7 +17,7 @@ from checks import semlib
 
 
 def run(ctx):
-    failures = vlib.proof_stage(ctx, "theories/Props/C03.v", ["theories/Oblig/O03.v"])
+    failures = vlib.proof_stage(ctx, "theories/Props/C03.v", ["theories/Oblig/O03.v", "theories/Oblig/O01.v"])   # O01: statement translation incl. scoping
     quick = ctx.tier == "quick"
     kfs = vlib.known_findings("C03")
     reps = 40 if quick else 1500
